@@ -92,7 +92,15 @@ where
     }
 
     /// Add new constraint `c` while keeping the store normalized
-    pub fn push_and_normalize(&mut self, newc: Rc<dyn Constraint<U, E>>) {
+    ///
+    /// Returns the constraints that are not in the store after the call although they were
+    /// stored before or were to be added: stored constraints made redundant by `newc`, or `newc`
+    /// itself if a stored constraint already implies it.
+    pub fn push_and_normalize(
+        &mut self,
+        newc: Rc<dyn Constraint<U, E>>,
+    ) -> Vec<Rc<dyn Constraint<U, E>>> {
+        let mut dropped = vec![];
         if let Some(tree_newc) = newc.downcast_ref::<DisequalityConstraint<U, E>>() {
             let mut normalized = HashSet::new();
             let mut newc_is_redundant = false;
@@ -105,6 +113,8 @@ where
                         normalized.insert(storec);
                     } else if !tree_newc.subsumes(tree_storec) {
                         normalized.insert(storec);
+                    } else {
+                        dropped.push(storec);
                     }
                 } else {
                     normalized.insert(storec);
@@ -112,10 +122,12 @@ where
             }
             self.0 = normalized;
             if newc_is_redundant {
-                return;
+                dropped.push(newc);
+                return dropped;
             }
         }
         self.insert(newc);
+        dropped
     }
 
     /// Remove redundant constraints from the store
